@@ -76,6 +76,12 @@ pub fn norm(u: &str) -> Option<String> {
     })
 }
 
+/// the whole URL (RFC 3986 §5.2 hands the reference's authority — userinfo included — and fragment on to the
+/// target), in the `url` crate's serialisation
+pub fn full(u: &str) -> Option<String> {
+    Url::parse(u).ok().map(|u| u.as_str().to_string())
+}
+
 fn gen_location(rng: &mut Rng) -> (Option<Vec<u8>>, &'static str) {
     match rng.below(16) {
         0 => (None, "missing"),
@@ -118,7 +124,7 @@ pub fn generate_c09(seed: u64, tier: &str, sink: &mut Sink) {
         let max = rng.below(7) as u32;
         let follow = !rng.chance(1, 6);
         let via_proxy = rng.chance(1, 4);
-        let start = rng.pick(&["http://start.test/a/b/c?x=1", "http://start.test", "http://start.test:8080/dir/", "https://start.test/s"]).to_string();
+        let start = rng.pick(&["http://start.test/a/b/c?x=1", "http://start.test", "http://start.test:8080/dir/", "https://start.test/s", "http://start.test/a/b?x=1#top", "http://ann:pw@start.test/p#f?g"]).to_string();
         let mut hops: Vec<(u16, Option<Vec<u8>>)> = vec![];
         let mut kinds: Vec<&'static str> = vec![];
         for i in 0..len {
@@ -154,8 +160,7 @@ pub fn generate_c09(seed: u64, tier: &str, sink: &mut Sink) {
             plain_tunnel: false,
         };
         let obs = run_send(&case);
-        let start_norm = norm(&start).unwrap();
-        let (urls, outcome) = expected_trace(&start_norm, &hops, follow, max);
+        let (urls, outcome) = expected_trace(&start, &hops, follow, max);
         // if the scripted chain is shorter than what would be followed, the run ends "out of hops":
         // the generator makes the last status terminal often enough; otherwise expect an I/O eof error
         let o: Result<(), (String, String)> = (|| {
@@ -188,7 +193,7 @@ pub fn generate_c09(seed: u64, tier: &str, sink: &mut Sink) {
             match (&outcome, &obs.fin) {
                 (Outcome::TooMany, FinalObs::Err(k)) if k == "tooManyRedirections" => Ok(()),
                 (Outcome::LocationError, FinalObs::Err(k)) if k == "locationHeader" || k == "redirectionUrl" || k == "invalidBaseUrl" => Ok(()),
-                (Outcome::Returned(st, u), FinalObs::Ok(s2, u2)) if *st == *s2 && norm(u).as_deref() == Some(u2.as_str()) => Ok(()),
+                (Outcome::Returned(st, u), FinalObs::Ok(s2, u2)) if *st == *s2 && full(u).as_deref() == Some(u2.as_str()) => Ok(()),
                 (Outcome::Returned(0, _), FinalObs::Err(_)) => Ok(()), // chain longer than the script: connection yields EOF
                 (e, f) => Err((format!("outcome-{}", match e { Outcome::TooMany => "too-many", Outcome::LocationError => "location", Outcome::Returned(..) => "returned" }), format!("expected {:?}, got {:?}", e, f))),
             }
